@@ -8,6 +8,7 @@ import (
 	"math/rand"
 	"regexp"
 	"strconv"
+	"strings"
 
 	"github.com/herohde/morlock/pkg/board"
 	"github.com/herohde/morlock/pkg/board/fen"
@@ -220,6 +221,7 @@ type Prog struct {
 	zt     *board.ZobristTable
 	boards []*Live
 	nextID int
+	nrec   int
 }
 
 var repRe = regexp.MustCompile(`hash=[0-9a-f]+ \((-?\d+)\)`)
@@ -238,8 +240,14 @@ func (pr *Prog) Rec(l *Live) M {
 	if mm := repRe.FindStringSubmatch(b.String()); mm != nil {
 		reps, _ = strconv.Atoi(mm[1])
 	}
+	pr.nrec++
+	variants := []M{}
+	if pr.nrec%6 == 0 {
+		variants = pr.componentVariants(b)
+	}
 	return M{
-		"id": l.ID, "pos": proj.Position(b.Position(), b.Turn()),
+		"variants": variants,
+		"id":       l.ID, "pos": proj.Position(b.Position(), b.Turn()),
 		"hash": proj.Hex(b.Hash()), "scratch": proj.Hex(pr.zt.Hash(b.Position(), b.Turn())),
 		"np": b.NoProgress(), "ply": b.Ply(), "fm": b.FullMoves(),
 		"castled": []int{proj.B2I(b.HasCastled(board.White)), proj.B2I(b.HasCastled(board.Black))},
@@ -248,6 +256,57 @@ func (pr *Prog) Rec(l *Live) M {
 		"out": int(b.Result().Outcome), "reason": string(b.Result().Reason), "reps": reps,
 		"fen": fen.Encode(b.Position(), b.Turn(), b.NoProgress(), b.FullMoves()),
 	}
+}
+
+// componentVariants: the current position and the positions that differ from it in exactly one of side to
+// move, one castling right, or the en passant target (every file), each with its hash from scratch. The
+// identity of a variant is the four-field text it was built from (string surgery, not the code under test).
+func (pr *Prog) componentVariants(b *board.Board) []M {
+	f := strings.Fields(fen.Encode(b.Position(), b.Turn(), 0, 1))
+	if len(f) != 6 {
+		return []M{}
+	}
+	var ret []M
+	add := func(place, turn, cr, ep string) {
+		id := place + " " + turn + " " + cr + " " + ep
+		pos, t, _, _, err := fen.Decode(id + " 0 1")
+		if err != nil || pos == nil {
+			return
+		}
+		ret = append(ret, M{"id": id, "hash": proj.Hex(pr.zt.Hash(pos, t))})
+	}
+	add(f[0], f[1], f[2], f[3])
+	rank := "6"
+	other := "b"
+	if f[1] == "b" {
+		rank, other = "3", "w"
+	}
+	for _, file := range "abcdefgh" {
+		if ep := string(file) + rank; ep != f[3] {
+			add(f[0], f[1], f[2], ep)
+		}
+	}
+	if f[3] != "-" {
+		add(f[0], f[1], f[2], "-")
+	}
+	add(f[0], other, f[2], "-")
+	for _, right := range "KQkq" {
+		cr := ""
+		for _, c := range "KQkq" {
+			has := strings.ContainsRune(f[2], c)
+			if c == right {
+				has = !has
+			}
+			if has {
+				cr += string(c)
+			}
+		}
+		if cr == "" {
+			cr = "-"
+		}
+		add(f[0], f[1], cr, f[3])
+	}
+	return ret
 }
 
 func (pr *Prog) recs() []M {
